@@ -482,6 +482,10 @@ def run(ctx):
             reach = fe.reachable_blocks(start=None, cut_edges=g_no, cut_blocks=q.blocks_of(fe, lp) | set([b for (b, s, l) in []]), with_catch=False)
             ok2 = all(fe.point_of(r)[0] not in reach for r in succ)
             ctx.check(ok2, R6, 'fetch:propagation-unless-notriggers', 'a hit can be returned without propagating its triggers although notriggers is false', fe.where)
+    # "notriggers" is the caller's decision: neither function may switch it on by itself (a frame whose key already is a page trigger still has triggers of its own to hand on)
+    for f_ in (fe, P.fn(CI + 'store')):
+        np_ = [p_['ref'] for p_ in f_.params if p_.get('name') == 'notriggers']
+        ctx.check(len(np_) == 1 and not q.writes_to(f_, np_[0]), R6, '%s:notriggers-is-the-callers-value' % f_.short, 'the function overrides the notriggers argument: trigger inheritance is skipped although the caller asked for it', f_.where)
     st = P.fn(CI + 'store')
     keyp, trp, notr = q.param_by_index(st, 0), q.param_by_index(st, 2), q.param_by_index(st, 4)
     adds = [i for i in st.calls() if st.bcallee(i) == CI + 'add_trigger']
